@@ -30,6 +30,8 @@ FUNCS = [
     ("artifactClearCache", "framework/artifact/artifact.py", "Artifact", "clear_cache"),
     ("streamKey", "framework/randomness/stream.py", "RandomnessStream", "_key"),
     ("streamGetDraw", "framework/randomness/stream.py", "RandomnessStream", "get_draw"),
+    ("streamFilterForProbability", "framework/randomness/stream.py", "RandomnessStream", "filter_for_probability"),
+    ("resultsGather", "framework/results/manager.py", "ResultsManager", "gather_results"),
     ("machineTransition", "framework/state_machine.py", "Machine", "transition"),
     ("createSimulants", "framework/population/manager.py", "PopulationManager", "_create_simulants"),
     ("viewGet", "framework/population/population_view.py", "PopulationView", "get"),
